@@ -1,6 +1,7 @@
 import Thanos.Model.IndexHeader
 import Thanos.Lemmas.IndexHeader
 import Thanos.Lemmas.IndexLookup
+import Thanos.Lemmas.IndexMeta
 import Thanos.Generated.Facts
 /-
   C11 — Binary index-header answers equal the full index.
@@ -47,6 +48,111 @@ theorem C11_labelValues_all (n : Nat) (hn : n ≥ 1) (tbl : List (Nat × Nat)) (
     rw [hsm] at hg' ⊢
     simp only [hg']
     simpa using hgo
+
+/-! ### label names, symbols, index format v1 -/
+
+/-- LabelNames: the keys of the postings map — for a table whose names come in non-decreasing order
+    (format v2 groups and sorts them; for v1 the reader sorts the keys) exactly the distinct names of
+    the table except the name of the all-postings key, each once, in increasing order. -/
+theorem C11_labelNames (emptyName : Option Nat) (names : List Nat) (h : names.Pairwise (· ≤ ·)) :
+    (labelNames emptyName names).Pairwise (· < ·) ∧
+    ∀ x, x ∈ labelNames emptyName names ↔ x ∈ names ∧ some x ≠ emptyName :=
+  ⟨labelNames_strict emptyName names h, mem_labelNames emptyName names⟩
+
+/-- LookupSymbol: any sequence of lookups, through the map of label-name symbols and the
+    direct-mapped cache of value symbols (any number of slots, collisions, overwritten slots,
+    the empty symbol that never counts as cached), answers what the symbol table answers — for a
+    v1 index at the shifted reference. -/
+theorem C11_lookupSymbols (table : Nat → Option (List Nat)) (names : List (Nat × List Nat))
+    (size shift : Nat) (hn : NamesOK table names) (refs : List Nat) :
+    lookupSymbols table names size shift refs [] =
+      refs.map fun o => table ((o + shift) % 4294967296) :=
+  lookupSymbols_ok table names size shift hn refs [] (cacheOK_nil table)
+
+/-- the same from any reachable cache state (the invariant is preserved by every lookup) -/
+theorem C11_lookupSymbol_step (table : Nat → Option (List Nat)) (names : List (Nat × List Nat))
+    (size shift o : Nat) (c : SymCache) (hn : NamesOK table names) (hc : CacheOK table c) :
+    (lookupSymbol table names size shift o c).1 = table ((o + shift) % 4294967296) ∧
+    CacheOK table (lookupSymbol table names size shift o c).2 :=
+  lookupSymbol_ok table names size shift o c hn hc
+
+/-- the hit test needs the reference: a cache that compared the slot only would answer a
+    colliding reference with the wrong symbol (two references 1024 apart) -/
+example : lookupSymbols (fun o => if o = 1 then some [97] else if o = 1025 then some [98] else none)
+    [] 1024 0 [1, 1025, 1, 1025, 7] [] = [some [97], some [98], some [97], some [98], none] := by decide
+
+/-- index format v1, multi-value lookup: one answer per requested value, in order — the stored
+    range of the pair, or NotFoundRange. -/
+theorem C11_v1_lookup (e lastEnd : Nat) (tbl : List EntryV1) (name : Nat) (values : List Nat)
+    (hk : (tbl.any fun x => x.1 = name) = true) :
+    lookupV1 false e lastEnd tbl name values =
+      values.map (fun v => ((rangesV1 e lastEnd tbl).reverse.lookup (name, v)).getD notFound) ∧
+    (lookupV1 false e lastEnd tbl name values).length = values.length := by
+  refine ⟨?_, lookupV1_length e lastEnd tbl name values hk⟩
+  unfold lookupV1; simp [hk]
+
+/-- … where the stored range of the i-th entry starts 4 bytes after its offset and ends 4 bytes
+    before the next entry's offset; the last entry's ends 4 bytes before the end of the section and
+    is missing altogether if its name is "" -/
+theorem C11_v1_ranges (e lastEnd : Nat) (tbl : List EntryV1) :
+    (∀ i a b, tbl[i]? = some a → tbl[i + 1]? = some b →
+      (rangesV1 e lastEnd tbl)[i]? = some ((a.1, a.2.1), ⟨(a.2.2 : Int) + 4, (b.2.2 : Int) - 4⟩)) ∧
+    (∀ a, tbl.getLast? = some a → (rangesV1 e lastEnd tbl)[tbl.length - 1]? =
+      if a.1 = e then none else some ((a.1, a.2.1), ⟨(a.2.2 : Int) + 4, (lastEnd : Int) - 4⟩)) :=
+  ⟨fun i a b ha hb => rangesV1_inner e lastEnd tbl i a b ha hb,
+   fun a ha => rangesV1_last e lastEnd tbl a ha⟩
+
+/-- the v1 branch as it was (`continue` on a missing value) is wrong: the answer is shorter than the
+    request, so positions no longer correspond … -/
+theorem C11_v1_omit_false :
+    ∃ (e lastEnd : Nat) (tbl : List EntryV1) (name : Nat) (values : List Nat),
+      (tbl.any fun x => x.1 = name) = true ∧
+      (lookupV1 true e lastEnd tbl name values).length ≠ values.length :=
+  ⟨0, 1000, [(1, 5, 100), (1, 7, 200)], 1, [5, 6, 7], by decide, by decide⟩
+
+/-- … and right exactly as far as every requested value exists -/
+theorem C11_v1_omit_partial (e lastEnd : Nat) (tbl : List EntryV1) (name : Nat) (values : List Nat)
+    (hall : ∀ v ∈ values, ((rangesV1 e lastEnd tbl).reverse.lookup (name, v)).isSome) :
+    lookupV1 true e lastEnd tbl name values = lookupV1 false e lastEnd tbl name values :=
+  lookupV1_old_partial e lastEnd tbl name values hall
+
+example : lookupV1 false 0 1000 [(1, 5, 100), (0, 0, 200), (1, 7, 300)] 1 [5, 6, 7] =
+    [⟨104, 196⟩, notFound, ⟨304, 996⟩] := by decide
+example : lookupV1 false 0 1000 [(1, 5, 100), (0, 0, 200)] 0 [0] = [notFound] := by decide
+example : labelNames (some 0) [0, 1, 1, 1, 3, 3] = [1, 3] := by decide
+
+/-! regenerated facts: the statements of LookupSymbol, LabelNames and the v1 branch are the ones
+    transliterated in Model/IndexHeader.lean -/
+
+theorem C11_lookupSymbol_fact :
+    Thanos.Facts.lookupSymbolStmts =
+      ["if:r.indexVersion == index.FormatV1 {", "o += headerLen - index.HeaderLen", "}",
+       "if:s, ok := r.nameSymbols[o]; ok {", "return s, nil", "}",
+       "cacheIndex := o % valueSymbolsCacheSize", "r.valueSymbolsMx.RLock()",
+       "if:cached := r.valueSymbols[cacheIndex]; cached.index == o && cached.symbol != \"\" {",
+       "v := cached.symbol", "r.valueSymbolsMx.RUnlock()", "return v, nil", "}",
+       "r.valueSymbolsMx.RUnlock()", "s, err := r.symbols.Lookup(o)",
+       "if:err != nil {", "return s, err", "}",
+       "r.valueSymbolsMx.Lock()", "r.valueSymbols[cacheIndex].index = o",
+       "r.valueSymbols[cacheIndex].symbol = s", "r.valueSymbolsMx.Unlock()", "return s, nil"] := by
+  decide
+
+theorem C11_labelNames_fact :
+    Thanos.Facts.labelNamesStmts =
+      ["allPostingsKeyName, _ := index.AllPostingsKey()",
+       "labelNames := make([]string, 0, len(r.postings))",
+       "range:name,unknown in r.postings {", "if:name == allPostingsKeyName {", "continue", "}",
+       "labelNames = append(labelNames, name)", "}", "sort.Strings(labelNames)",
+       "return labelNames, nil"] := by decide
+
+theorem C11_v1_fact :
+    Thanos.Facts.postingsOffsetV1Stmts =
+      ["e, ok := r.postingsV1[name]", "if:!ok {", "return nil, nil", "}",
+       "range:_,v in values {", "rng, ok := e[v]", "if:!ok {", "rngs = append(rngs, NotFoundRange)", "continue", "}",
+       "rngs = append(rngs, rng)", "}", "return rngs, nil"] ∧
+    Thanos.Facts.headerInitLastNameConds =
+      ["if:lastName != nil", "if:string(lastName) != \"\"", "if:lastName != nil", "if:lastName != nil"] := by
+  decide
 
 /-! ### regenerated facts: the control skeleton of the lookup and the sampling tests of `init`
     are the ones transliterated in Model/IndexHeader.lean -/
